@@ -1,5 +1,6 @@
 (* Pinned statements for C09: a changed statement or a new axiom fails the check. *)
 From SwimV Require Import Model.ReconText Proofs.ReconTextProofs Props.C09.
+From SwimV Require Import Model.ReconNum Proofs.ReconNumProofs.
 Open Scope N_scope.
 Check (C09_text_roundtrip) : (forall t rest, match rest with [] => True | c :: _ => is_identifier_char c = false end -> text_token (write_string_literal t ++ rest) = (TokText t, rest)).
 Print Assumptions C09_text_roundtrip.
@@ -9,3 +10,9 @@ Check (C09_unescape_escape) : (forall t, unescape (escape_text t) = Some t).
 Print Assumptions C09_unescape_escape.
 Check (C09_surrogate_escape_rejected) : (text_token [34; 92; 117; 100; 56; 48; 48; 34] = (TokBadEscape, [])).
 Print Assumptions C09_surrogate_escape_rejected.
+Check (C09_printed_integer_reads_back) : (forall z rest, follow_ok rest -> exists v, num_token (print_int z ++ rest) = (NLit v, rest) /\ nz v = z).
+Print Assumptions C09_printed_integer_reads_back.
+Check (C09_printed_integer_is_an_integer_text) : (forall z, exists v, int_of_text (print_int z) = Some v /\ nz v = z).
+Print Assumptions C09_printed_integer_is_an_integer_text.
+Check (C09_literal_kind_by_number) : (forall neg n, let v := classify neg n in let z := nz v in value_kind v = if ((- 2147483648 <=? z) && (z <=? 2147483647))%Z then VI32 else if ((- 9223372036854775807 <=? z) && (z <=? 9223372036854775807))%Z then VI64 else if ((0 <=? z) && (z <=? 18446744073709551615))%Z then VU64 else if (z <? 0)%Z then VBigInt else VBigUint).
+Print Assumptions C09_literal_kind_by_number.
